@@ -100,12 +100,25 @@ def check_captures_shape(fn):
         problems.append(f"rejection condition `{norm(t)}` is not `not <match>`")
         return problems
     m = t.operand
+    disj = None
     if isinstance(m, ast.Name):
-        defs = [n.value for n in walk_local(fn) if isinstance(n, ast.Assign) and any(is_name(x, m.id) for x in n.targets)]
-        if len(defs) != 1:
-            raise AnalysisError("selector.Selector.check_captures: match variable defined more than once")
-        m = defs[0]
-    disj = m.values if isinstance(m, ast.BoolOp) and isinstance(m.op, ast.Or) else [m]
+        defs = [n for n in walk_local(fn) if isinstance(n, ast.Assign) and any(is_name(x, m.id) for x in n.targets)]
+        if len(defs) == 2:
+            # if isinstance(v.value, MatchFunction): match = v.value.fn(value)  else: match = v.value == value
+            par = getattr(defs[0], "_parent", None)
+            if isinstance(par, ast.If) and par is getattr(defs[1], "_parent", None) and defs[0] in par.body and defs[1] in par.orelse \
+                    and len(par.body) == 1 and len(par.orelse) == 1:
+                disj = [ast.BoolOp(op=ast.And(), values=[par.test, defs[0].value]), defs[1].value]
+        if disj is None:
+            if len(defs) != 1:
+                raise AnalysisError("selector.Selector.check_captures: definition of the match variable not recognised")
+            m = defs[0].value
+    if disj is None:
+        disj = m.values if isinstance(m, ast.BoolOp) and isinstance(m.op, ast.Or) else [m]
+    flat = []
+    for d in disj:
+        flat += d.values if isinstance(d, ast.BoolOp) and isinstance(d.op, ast.Or) else [d]
+    disj = flat
     inner = loops[0].target.id if isinstance(loops[0].target, ast.Name) else None   # innermost loop variable = value
     have_eq = have_fn = False
     for d in disj:
